@@ -340,7 +340,15 @@ func genPacked(o *Out, r *Rng, n int, tier string) {
 					s, _ = e.MarshalMsg(s)
 				}
 				if r.Chance(20) {
-					s = mutate(r, s)
+					// (inputs that declare huge counts or lengths are the business of the codec suite, which runs them
+					// in a child process under an address-space limit: known finding C10-count-driven-allocation)
+					for try := 0; try < 8; try++ {
+						ms := mutate(r, append([]byte{}, s...))
+						if c, l := suspect(ms); !c && !l {
+							s = ms
+							break
+						}
+					}
 				}
 				o.emit("C03", "UP", hx(s))
 			case 9:
